@@ -188,7 +188,7 @@ class ADsaComputation(VariableComputation):
             # If a variable has no neighbors, we must select its final value immediately.
             # We also do not need to setup a periodic action.
             if hasattr(self._variable, "cost_for_val"):
-                current_cost, value = optimal_cost_value(self._variable, self.mode)
+                value, current_cost = optimal_cost_value(self._variable, self.mode)
                 self.value_selection(value, current_cost)
                 if self.logger.isEnabledFor(logging.INFO):
                     self.logger.info(
